@@ -20,6 +20,7 @@ from slimta.relay.pipe import PipeRelay, MaildropRelay, DovecotLdaRelay
 from slimta.smtp.reply import Reply
 
 ID = 'C11'
+REALTIME = True      # runs on the wall clock: an unreproducible failure is re-run before it counts (see runner)
 LEVEL = 'fault_enumeration'
 RULE = ('fault enumeration over downstream scripts. SMTP/LMTP: real StaticSmtpRelay/StaticLmtpRelay against an in-memory scripted peer; '
         'exhaustive single-fault table: stage in {banner, EHLO (incl. 500->HELO), HELO, STARTTLS, EHLO2, AUTH, MAIL, RCPT1..3, DATA, '
